@@ -30,6 +30,9 @@ LEVEL_TEXT = (
 )
 LEVEL_NOTE = "Trusted: each scheme's own unconfigured handler as hash producer, Hypothesis."
 TECHNIQUE = "enumeration of shipped contexts x schemes with Hypothesis-generated hashes and an attribution oracle"
+#: thorough tier: seed-dependent tasks are repeated under this many derived seeds (run.py); the listed task functions enumerate fixed domains
+THOROUGH_REPS = 8
+DETERMINISTIC_FNS = ('t_presets', 't_registry', 't_import_order')
 
 APPS = ["custom_app_context", "django_context", "django10_context", "django14_context", "django16_context", "django110_context", "django21_context", "django31_context",
         "ldap_context", "ldap_nocrypt_context", "mysql_context", "mysql4_context", "mysql3_context", "phpass_context", "phpbb3_context", "postgres_context",
